@@ -1028,7 +1028,7 @@ def translate_module(modname, specs, src_root, registry=None):
         except Unsupported as e:
             failures.append({'kernel': spec['name'], 'file': spec['file'], 'func': spec['func'], 'why': str(e)})
             out.append(f'(* kernel {spec["name"]} NOT TRANSLATED: {e} *)\n')
-        except (KeyError, AttributeError, IndexError, TypeError) as e:
+        except Exception as e:    # fail closed on anything unexpected
             failures.append({'kernel': spec['name'], 'file': spec['file'], 'func': spec['func'],
                              'why': f'translator error {type(e).__name__}: {e}'})
             out.append(f'(* kernel {spec["name"]} NOT TRANSLATED: {type(e).__name__} {e} *)\n')
